@@ -202,6 +202,10 @@ def run_plan(plan):
                 if c[4] == "drop":
                     b_ = None
                 seen[a] = b_
+            # locations the sequence never asked for are judged by what the
+            # unit holds: stopping early does not make a value unimplemented
+            for a in range(start + len(bulk), plan["last"] + 1):
+                seen[a] = visible(a, None)
             exp = {}
             for vv in lib.values:
                 locs = [l.address for l in vv.locations]
@@ -233,6 +237,12 @@ def run_plan(plan):
         V("memory-modified-by-read", "cells %s changed by a read" % [hex(a) for a in changed[:6]], site=kind)
     if other.cells != other_before:
         V("other-bank-modified-by-read", "another bank changed", site=kind)
+    latching_read = kind == "all-latch" and lib.has_latch
+    if bank.number != 0 and not latching_read and bank.cells[2] != shadow[2]:
+        # only a read that was asked to latch has any business writing the lock / latch byte
+        V("lock-byte-modified-by-read", "bank %s lock byte %#x -> %#x by %s" % (
+            key, shadow[2] if shadow[2] is not None else -1, bank.cells[2] if bank.cells[2] is not None else -1, kind),
+          site=kind)
     if bank.number != 0 and (bank.has_latch or bank.has_lock) and plan["last"] >= 2:
         # (a bank whose last accessible location is below 2 has no reachable
         # lock byte: nothing a read could latch or un-latch)
